@@ -36,3 +36,10 @@ def validb (I : Inst) : Bool :=
   I.ps.any (fun p => !p.choices.isEmpty)
 
 end N2
+
+namespace N2
+/-- the class outside the known finding F1, decidable: every instructor of a non-fixed course has
+    an empty choice list -/
+def noFreeableb (I : Inst) : Bool :=
+  I.cs.all (fun c => c.fixed || c.instructors.all (fun p => (I.part p).choices.isEmpty))
+end N2
